@@ -144,6 +144,8 @@ func PredictResponse(handler string, script []string, id int, isHTTP bool, rname
 				panicked("reserr", "")
 			case "err":
 				panicked("err", "plain error "+sid)
+			case "wraperr":
+				panicked("err", "wrapped "+sid+": Not found")
 			case "str":
 				panicked("str", "string panic "+sid)
 			case "int":
